@@ -365,6 +365,33 @@ def gen_dg(rng, tol):
     return case
 
 
+def gen_dg_mixed_int(rng):
+    """columns whose grids are whole numbers stored with an integer dtype next to columns with fractional grids (a count
+    parameter next to a rate): every column is snapped onto its own grid, whatever the dtype of its neighbours' grids"""
+    ncol = rng.randint(2, 4)
+    nrow = rng.choice([1, 2, 3, 5])
+    int_cols = {0} if rng.below(3) else {rng.below(ncol)}
+    if rng.below(3) == 0:
+        int_cols.add(rng.below(ncol))
+    grids, cols = [], []
+    for c in range(ncol):
+        if c in int_cols:
+            n, x, g = rng.randint(1, 8), rng.randint(-6, 6), []
+            for _ in range(n):
+                g.append(float(x))
+                x += rng.randint(1, 3)
+            col = [rng.randint(int(g[0]) * 4 - 6, int(g[-1]) * 4 + 6) / 4.0 for _ in range(nrow)]
+        else:
+            ints, sh, _ = dyadic_grid(rng, min(grid_size(rng), 20))
+            sc = 2.0 ** -(sh + 2)
+            g = [4 * x * sc for x in ints]
+            col = [v * sc for v in dyadic_values(rng, ints, nrow)]
+        grids.append(g)
+        cols.append(col)
+    raw = [[cols[c][r] for c in range(ncol)] for r in range(nrow)]
+    return {"kind": "dg", "tol": False, "cls": "digitize-mixed-int-float-grids", "grids": grids, "raw": raw, "int_grids": True}
+
+
 def exhaustive_cases(with_duplicates):
     """All sorted grids made of elements of {0..7} (every non-empty subset; optionally also every non-decreasing
     sequence of length <= 4), values = all halves from -2 to 9."""
@@ -465,6 +492,7 @@ def run(chk, replay=None):
         cases += [gen_gc_int(r) for _ in range(150 * mult)]
         cases += [gen_dg(r, False) for _ in range(200 * mult)]
         cases += [gen_dg(r, True) for _ in range(100 * mult)]
+        cases += [gen_dg_mixed_int(r) for _ in range(60 * mult)]
         cases += exhaustive_cases(with_duplicates=chk.tier != "quick")
         cases += codec_cases(r, cases, 150 * mult)
 
